@@ -21,12 +21,13 @@ func SpecSplit(p Parser) bool       { panic("abstract spec function") }
 //@ func StreamParser.ExecCmd
 //@   arith int
 //@   properties C03
-//@   replay rdb_streamExpansion
+//@   replay rdb_streamExpansion rdb_streamIds
 //@   ghost var masterSet mathint = 0
 //@   requires nonnil: sp != nil
 //@   modifies heap, masterSet
 //@   set masterSet = 0 after store masterMs
 //@   assert after store numFields: master_field_count_is_read_once_per_listpack: masterSet == 0
+//@   assert at call Sprintf: stream_ids_are_formatted_as_unsigned_64_bit_numbers: format == "%d-%d" ==> len(a) == 2 && hastype(a[0], "uint64") && hastype(a[1], "uint64")
 //@   set masterSet = 1 after store numFields
 
 // ---- split values: every chunk of a value carries the key's expiry (C03) ----------------------
